@@ -2,6 +2,7 @@ package main
 
 import (
 	"fmt"
+	"go/ast"
 	"go/types"
 	"math/big"
 	"strings"
@@ -313,7 +314,12 @@ type ViewV struct {
 	Bytes *Term
 }
 
-func (v *ViewV) Decoded(m *Machine) Val { return m.decode(v.Typ, v.Bytes) }
+func (v *ViewV) Decoded(m *Machine) Val {
+	saved := m.SpecView
+	m.SpecView = true
+	defer func() { m.SpecView = saved }()
+	return m.decode(v.Typ, v.Bytes)
+}
 
 func (ev *Evaluator) index(a, i Val) Val {
 	m := ev.M
@@ -502,6 +508,22 @@ func (ev *Evaluator) call(e *Expr) Val {
 			t = m.GetG(e.Args[0].Name, gs)
 		}
 		return t
+	case "arr":
+		// arr(seq, "Leaf.Path"): the per-leaf array of a by-value sequence (contract views)
+		if len(e.Args) != 2 || e.Args[1].Op != "str" {
+			ev.fail("arr(seq, \"leaf\")")
+		}
+		sq, ok := ev.Eval(e.Args[0]).(*SeqV)
+		if !ok || sq.Leaves == nil {
+			ev.fail("arr: not a symbolic sequence")
+		}
+		for i, l := range seqLeaves(sq.Elem) {
+			if l.Path == e.Args[1].Name {
+				return sq.Leaves[i]
+			}
+		}
+		ev.fail("arr: no leaf %s", e.Args[1].Name)
+		return nil
 	case "result":
 		n, _ := isIntLit(ev.term(ev.Eval(e.Args[0])))
 		return ev.Results[n.Int64()]
@@ -589,6 +611,12 @@ func (ev *Evaluator) lookup(name string) Val {
 		return ev.E.D.Const("k_feeCollectorName", SStr)
 	case "authority":
 		return ev.E.D.Const("k_authorityAddr", SStr)
+	case "unbondingTime":
+		ev.E.declStaking()
+		return T(SInt, "stk_unbonding_time")
+	case "stk":
+		ev.E.declStaking()
+		return ev.M.stk()
 	case "maxUint64":
 		return T(SInt, "18446744073709551615")
 	}
@@ -681,7 +709,33 @@ func (ev *Evaluator) frameVar(f *Frame, name string) (Val, bool) {
 	if ok {
 		return found, true
 	}
-	// values introduced by a source-level short variable declaration: look at DebugRef-free fallback by SSA name
+	// source-level names of SSA values (DebugRef instructions; the program is built with ssa.GlobalDebug)
+	for _, b := range f.Fn.Blocks {
+		for _, ins := range b.Instrs {
+			dr, isD := ins.(*ssa.DebugRef)
+			if !isD {
+				continue
+			}
+			id, isI := dr.Expr.(*ast.Ident)
+			if !isI || id.Name != name {
+				continue
+			}
+			val, has := f.Env[dr.X]
+			if !has {
+				continue
+			}
+			if dr.IsAddr {
+				if p, isP := val.(*PtrV); isP {
+					if _, exists := ev.M.Heap[p.Cell]; exists {
+						return ev.M.Load(p), true
+					}
+				}
+				continue
+			}
+			return val, true
+		}
+	}
+	// fallback by SSA name
 	for v, val := range f.Env {
 		if v.Name() == name {
 			return val, true
